@@ -11,7 +11,8 @@ for d in sorted(glob.glob(os.path.join(V, "seeded", pat))):
     diff = os.path.join(d, "patch.diff")
     if not os.path.exists(diff):
         continue
-    pid = json.load(open(os.path.join(d, "meta.json")))["property"]
+    meta = json.load(open(os.path.join(d, "meta.json")))
+    pid = meta.get("detected_by") or meta["property"]  # a change outside its own property's domain is listed with the check that owns it
     S = tempfile.mkdtemp(prefix="scratch-", dir="/tmp")
     try:
         subprocess.run(f"git -C /repo archive HEAD | tar -x -C {S}", shell=True, check=True)
